@@ -13,6 +13,8 @@ import (
 	"net/http"
 	"net/http/httptest"
 	"net/url"
+	"os"
+	"path/filepath"
 	"reflect"
 	"sort"
 	"strings"
@@ -43,6 +45,7 @@ type c14Vec struct {
 	Attr  string   `json:"attr,omitempty"`
 	Bind  string   `json:"binding,omitempty"`
 	Sch   string   `json:"scheme,omitempty"`
+	Shape string   `json:"shape,omitempty"` // what follows an http-ish scheme ("plain" or "": an ordinary URL)
 	Req   string   `json:"required,omitempty"`
 	Class string   `json:"class"`
 	Pred  struct {
@@ -101,13 +104,13 @@ type c14In struct {
 }
 
 type c14Out struct {
-	Body     string      `json:"body"`
-	Header   http.Header `json:"header,omitempty"`
-	WantURLs []string    `json:"want_urls"`
-	WantMsg  string      `json:"want_msg,omitempty"`
+	Body     string         `json:"body"`
+	Header   http.Header    `json:"header,omitempty"`
+	WantURLs []string       `json:"want_urls"`
+	WantMsg  string         `json:"want_msg,omitempty"`
 	wantEl   *etree.Element // when set: the element the message field must decode to (any serialisation of it)
-	Err      string      `json:"err,omitempty"`
-	Panic    string      `json:"panic,omitempty"`
+	Err      string         `json:"err,omitempty"`
+	Panic    string         `json:"panic,omitempty"`
 }
 
 func c14XMLSafe(s string) string { return strings.ReplaceAll(s, "\x00", "") }
@@ -279,7 +282,8 @@ func c14XMLAttr(s string) string {
 			b.WriteString("&gt;")
 		case '"':
 			b.WriteString("&quot;")
-		case '\t', '\n', '\r':
+		case '\t', '\n', '\r', 0x7f:
+			// as character references, so that the parser hands the character itself to the library
 			fmt.Fprintf(&b, "&#%d;", r)
 		default:
 			b.WriteRune(r)
@@ -703,9 +707,57 @@ var c14SchemeReps = map[string][]string{
 	"leadSpace":  {" javascript:alert(1)", "  data:text/html,x", " vbscript:msgbox(1)"},
 	"leadCtl":    {"\tjavascript:alert(1)", "\njavascript:alert(1)", "\rjavascript:alert(1)", "java\tscript:alert(1)", "\x01javascript:alert(1)", "\x1fjavascript:alert(1)"},
 	"schemeRel":  {"//evil.example.com/x", "//evil.example.com"},
-	"relPath":    {"/saml/acs", "saml/acs", "../acs", "?x=1", "#frag", ":foo"},
-	"unparsable": {"http://[::1", "https://sp.example.com:port/acs", "http://sp.example.com/%zz", "http://exa mple.com/"},
+	"relPath":    {"/saml/acs", "saml/acs", "../acs", "?x=1", "#frag"},
+	"colonFirst": {":foo", "://sp.example.com/acs", ":https://sp.example.com/acs"},
 	"empty":      {""},
+}
+
+// what is written for the scheme of an http-ish scheme class
+var c14SchemeText = map[string][]string{
+	"http":      {"http"},
+	"https":     {"https"},
+	"httpMixed": {"HTTP", "HTTPS", "HtTpS", "Https", "hTTP"},
+}
+
+// representatives of the shapes (spec: Shapes): {S} is the scheme text.  The value is the attribute
+// as it is after XML decoding.
+var c14LongPath = strings.Repeat("a/", 1500) + "sso"
+var c14ShapeReps = map[string][]string{
+	// the right prefix, but not a URL
+	"ctlCR":      {"{S}://idp.example.com/sso\rx", "{S}://idp.example.com\r/sso", "{S}://idp.example.com/sso?a=\rb", "{S}://idp.example.com/sso\r"},
+	"ctlLF":      {"{S}://idp.example.com/sso\nx", "{S}://idp.example\n.com/sso", "{S}://idp.example.com/sso?a=b\n", "{S}:\n//idp.example.com/sso"},
+	"ctlCRLF":    {"{S}://idp.example.com/sso\r\nX-Injected: 1", "{S}://idp.example.com/sso\r\nSet-Cookie: session=evil", "{S}://idp.example.com/sso\r\n\r\n<script>alert(1)</script>", "{S}://idp.example.com\r\nLocation: https://evil.example.net/"},
+	"ctlTAB":     {"{S}://idp.example.com/\tsso", "{S}://idp.exa\tmple.com/sso", "{S}://idp.example.com/sso\t"},
+	"ctlDEL":     {"{S}://idp.example.com/sso\x7f", "{S}://idp\x7f.example.com/sso", "{S}://idp.example.com/s\x7fso?x=1"},
+	"ctlFrag":    {"{S}://idp.example.com/sso#f\n", "{S}://idp.example.com/sso#\r\nX-Injected: 1", "{S}://idp.example.com/sso?x=1#\tf", "{S}://idp.example.com/sso#f\x7f", "{S}://idp.example.com#\r"},
+	"ctlC0":      {"{S}://idp.example.com/sso\x01", "{S}://idp.example.com/\x1bsso", "{S}://idp.example.com/sso\x0c", "{S}://idp\x1f.example.com/sso"},
+	"badBracket": {"{S}://[::1/sso", "{S}://[2001:db8::1/sso", "{S}://[::1"},
+	"badPort":    {"{S}://idp.example.com:port/sso", "{S}://idp.example.com:80a/sso", "{S}://idp.example.com:-1/sso"},
+	"badPctHost": {"{S}://%zz.example.com/sso", "{S}://idp%2.example.com/sso", "{S}://idp.example.com%/sso"},
+	"spaceHost":  {"{S}://idp example.com/sso", "{S}://idp.example.com :443/sso"},
+	"badPctPath": {"{S}://idp.example.com/%zz", "{S}://idp.example.com/sso%", "{S}://idp.example.com/a%2"},
+	"badPctFrag": {"{S}://idp.example.com/sso#%zz", "{S}://idp.example.com/sso#a%2"},
+	// net/url is lenient / only the generic syntax admits it
+	"emptyHost":   {"{S}:///sso", "{S}:///"},
+	"schemeOnly":  {"{S}:", "{S}://"},
+	"opaque":      {"{S}:idp.example.com/sso", "{S}:sso"},
+	"spacePath":   {"{S}://idp.example.com/a b", "{S}://idp.example.com/sso?x=a b"},
+	"badPctQuery": {"{S}://idp.example.com/sso?x=%zz", "{S}://idp.example.com/sso?x=%"},
+	"idnU":        {"{S}://b\u00fccher.example/sso", "{S}://\u4f8b\u3048.jp/sso"},
+	"rawUnicode":  {"{S}://idp.example.com/ss\u00f8", "{S}://idp.example.com/sso?n=\u65e5\u672c"},
+	"rawDelims":   {"{S}://idp.example.com/a\"b", "{S}://idp.example.com/a<b>c", "{S}://idp.example.com/a{b}|c^d`e"},
+	// well-formed, unusual
+	"userinfo":  {"{S}://user@idp.example.com/sso", "{S}://first.last@idp.example.com/sso"},
+	"ipv6":      {"{S}://[2001:db8::1]/sso", "{S}://[::1]:8443/sso", "{S}://[::ffff:192.0.2.1]/sso"},
+	"ipv4":      {"{S}://192.0.2.7/sso", "{S}://127.0.0.1:8080/sso"},
+	"port":      {"{S}://idp.example.com:8443/sso", "{S}://idp.example.com:80/sso", "{S}://idp.example.com:65535/sso"},
+	"pctPath":   {"{S}://idp.example.com/a%20b/sso", "{S}://idp.example.com/sso%2Fx", "{S}://idp.example.com/%E6%97%A5%E6%9C%AC"},
+	"query":     {"{S}://idp.example.com/sso?x=1&y=%3D2", "{S}://idp.example.com/sso?tenant=a;b=c", "{S}://idp.example.com/sso?"},
+	"fragment":  {"{S}://idp.example.com/sso#frag", "{S}://idp.example.com/sso?x=1#a%20b"},
+	"idnA":      {"{S}://xn--bcher-kva.example/sso", "{S}://xn--r8jz45g.jp/sso"},
+	"long":      {"{S}://idp.example.com/" + c14LongPath, "{S}://idp.example.com/sso?state=" + strings.Repeat("Z9", 1200)},
+	"noPath":    {"{S}://idp.example.com", "{S}://idp.example.com:8443"},
+	"subDelims": {"{S}://idp.example.com/sso;v=1,2/(x)!$'*+", "{S}://idp.example.com/a:b@c/~d_e-f.g"},
 }
 
 var c14ElementsOf = map[string][]string{
@@ -731,14 +783,23 @@ type c14MetaDoc struct {
 
 func c14BuildMeta(v *c14Vec, rng *rand.Rand, n int64) c14MetaDoc {
 	d := c14MetaDoc{Entity: fmt.Sprintf("https://peer%d.example.com/metadata", n)}
-	reps := c14SchemeReps[v.Sch]
-	d.Raw = reps[rng.Intn(len(reps))]
+	if v.Shape == "" || v.Shape == "plain" {
+		reps := c14SchemeReps[v.Sch]
+		d.Raw = reps[rng.Intn(len(reps))]
+	} else {
+		reps, st := c14ShapeReps[v.Shape], c14SchemeText[v.Sch]
+		d.Raw = strings.ReplaceAll(reps[rng.Intn(len(reps))], "{S}", st[rng.Intn(len(st))])
+	}
 	if urn, ok := c14BindingURN[v.Bind]; ok {
 		d.Binding = urn
 	} else {
 		d.Binding = c14UnknownBindings[rng.Intn(len(c14UnknownBindings))]
 	}
-	d.IllXML = strings.ContainsAny(d.Raw, "\x01\x1f")
+	for i := 0; i < len(d.Raw); i++ {
+		if c := d.Raw[i]; c < 0x20 && c != '\t' && c != '\n' && c != '\r' {
+			d.IllXML = true
+		}
+	}
 	lit := c14XMLAttr(d.Raw) // control characters other than tab/LF/CR stay raw: the document is then ill-formed
 	var el strings.Builder
 	el.WriteString("<" + v.Elem)
@@ -866,6 +927,17 @@ func c14ObserveMeta(shared *c14Server, v *c14Vec, d c14MetaDoc) []c14MetaObs {
 		}
 		return c14Walk(ed), nil
 	})
+	if v.Desc == "IDPSSODescriptor" {
+		// where an IdP's endpoint locations go once an SP has loaded the document: the destination
+		// getters, the redirect URL and the POST form action of the requests the SP builds
+		run("sp-sinks", func() ([]c14LocVal, error) {
+			var ed saml.EntityDescriptor
+			if err := xml.Unmarshal([]byte(d.Doc), &ed); err != nil {
+				return nil, err
+			}
+			return append(c14Walk(&ed), c14SPSinks(&ed)...), nil
+		})
+	}
 	run("samlidp", func() ([]c14LocVal, error) {
 		n := atomic.AddInt64(&shared.n, 1)
 		name := fmt.Sprintf("/services/m%d", n)
@@ -897,8 +969,102 @@ func c14ObserveMeta(shared *c14Server, v *c14Vec, d c14MetaDoc) []c14MetaObs {
 	return obs
 }
 
+// c14SPSinks: the strings a ServiceProvider configured with the parsed IdP metadata uses as destinations.
+// Paths end in "@dest" (the location as the getter returns it), "@redirect" (the URL of a redirect-binding
+// request: the location with the request appended) or "@action" (the action of a POST-binding form).
+func c14SPSinks(ed *saml.EntityDescriptor) []c14LocVal {
+	var out []c14LocVal
+	spv := newSP(ed)
+	add := func(path, val string) {
+		if val != "" {
+			out = append(out, c14LocVal{Path: path, Value: val})
+		}
+	}
+	for name, urn := range c14BindingURN {
+		add("sp.GetSSOBindingLocation("+name+")@dest", spv.GetSSOBindingLocation(urn))
+		add("sp.GetSLOBindingLocation("+name+")@dest", spv.GetSLOBindingLocation(urn))
+		add("sp.GetArtifactBindingLocation("+name+")@dest", spv.GetArtifactBindingLocation(urn))
+	}
+	try := func(path string, f func() string) {
+		var val string
+		if p, _ := safely(func() { val = f() }); !p {
+			add(path, val)
+		}
+	}
+	try("sp.MakeRedirectAuthenticationRequest@redirect", func() string {
+		if spv.GetSSOBindingLocation(saml.HTTPRedirectBinding) == "" {
+			return ""
+		}
+		if u, err := spv.MakeRedirectAuthenticationRequest("relay"); err == nil && u != nil {
+			return u.String()
+		}
+		return ""
+	})
+	try("sp.MakeRedirectLogoutRequest@redirect", func() string {
+		if spv.GetSLOBindingLocation(saml.HTTPRedirectBinding) == "" {
+			return ""
+		}
+		if u, err := spv.MakeRedirectLogoutRequest("alice", "relay"); err == nil && u != nil {
+			return u.String()
+		}
+		return ""
+	})
+	action := func(body []byte, err error, msgName string) string {
+		if err != nil || len(body) == 0 {
+			return ""
+		}
+		if pg := c14Analyse(c14Tokenize(string(body)), msgName); pg.HasAct {
+			return pg.Action
+		}
+		return ""
+	}
+	try("sp.MakePostAuthenticationRequest@action", func() string {
+		if spv.GetSSOBindingLocation(saml.HTTPPostBinding) == "" {
+			return ""
+		}
+		b, err := spv.MakePostAuthenticationRequest("relay")
+		return action(b, err, "SAMLRequest")
+	})
+	try("sp.MakePostLogoutRequest@action", func() string {
+		if spv.GetSLOBindingLocation(saml.HTTPPostBinding) == "" {
+			return ""
+		}
+		b, err := spv.MakePostLogoutRequest("alice", "relay")
+		return action(b, err, "SAMLRequest")
+	})
+	// the middleware's redirect: the Location header it answers with
+	try("samlsp.HandleStartAuthFlow@redirect", func() string {
+		if spv.GetSSOBindingLocation(saml.HTTPRedirectBinding) == "" {
+			return ""
+		}
+		m, err := samlsp.New(samlsp.Options{EntityID: spEntityID, URL: mustURL(spRoot), Key: key("ec256").Key, Certificate: key("ec256").Cert, IDPMetadata: ed})
+		if err != nil {
+			return ""
+		}
+		rec := httptest.NewRecorder()
+		m.HandleStartAuthFlow(rec, httptest.NewRequest("GET", spRoot+"/protected", nil))
+		return rec.Header().Get("Location")
+	})
+	sort.Slice(out, func(i, j int) bool { return out[i].Path < out[j].Path })
+	return out
+}
+
+// c14ControlIn returns the first ASCII control character (C0 or DEL) of s, if any.
+func c14ControlIn(s string) (byte, bool) {
+	for i := 0; i < len(s); i++ {
+		if s[i] < 0x20 || s[i] == 0x7f {
+			return s[i], true
+		}
+	}
+	return 0, false
+}
+
 func c14MetaKey(v *c14Vec) string {
-	return fmt.Sprintf("C14:meta:%s/%s:%s:binding=%s:scheme=%s", v.Desc, v.Elem, v.Attr, v.Bind, v.Sch)
+	k := fmt.Sprintf("C14:meta:%s/%s:%s:binding=%s:scheme=%s", v.Desc, v.Elem, v.Attr, v.Bind, v.Sch)
+	if v.Shape != "" && v.Shape != "plain" {
+		k += ":shape=" + v.Shape
+	}
+	return k
 }
 
 // c14JudgeMeta evaluates the statement's metadata clause on one parse path.
@@ -926,12 +1092,24 @@ func c14JudgeMeta(v *c14Vec, d c14MetaDoc, o c14MetaObs) (vio [][2]string, drift
 				val = d.Raw
 			}
 		}
+		// a redirect URL is the location with the request appended: judged as a destination only (identity
+		// with the input is judged on the parsed fields)
+		isRedirect := strings.HasSuffix(lv.Path, "@redirect")
 		if val == d.Raw {
 			preserved = true
 		}
-		// every surviving endpoint location is an http(s) URL
+		// every surviving endpoint location is an http(s) URL: no URL holds a control character (CR / LF in a
+		// destination is how a header line or a second response is injected) ...
+		if c, bad := c14ControlIn(lv.Value); bad {
+			vio = append(vio, [2]string{"control-survivor", fmt.Sprintf("after parsing, %s = %q holds the control character 0x%02x (binding %q)", lv.Path, lv.Value, c, d.Binding)})
+			continue
+		}
+		// ... and its scheme is http or https
 		if sch := c14BrowserScheme(val); sch != "http" && sch != "https" {
 			vio = append(vio, [2]string{"unsafe-survivor", fmt.Sprintf("after parsing, %s = %q (scheme %q) for binding %q", lv.Path, lv.Value, sch, d.Binding)})
+			continue
+		}
+		if isRedirect {
 			continue
 		}
 		if v.Class == "MustReject" && !benign[val] {
@@ -1031,7 +1209,7 @@ func TestC14(t *testing.T) {
 	if thorough() {
 		reps = 3
 	}
-	var sampleN, cspMissing int64
+	var sampleN, cspMissing, fragCtl int64
 	var metaN int64
 	var mu sync.Mutex
 	pathCount := map[string]int{}
@@ -1079,7 +1257,14 @@ func TestC14(t *testing.T) {
 				mu.Unlock()
 				vio, drift := c14JudgeMeta(v, d, o)
 				for _, x := range vio {
-					rep.Violation(k+":path="+o.Path+":"+x[0], x[1], map[string]any{"kind": "meta", "vector": v, "doc": d, "observed": o})
+					vk := k + ":path=" + o.Path + ":" + x[0]
+					if v.Shape == "ctlFrag" && (x[0] == "survived" || x[0] == "control-survivor") {
+						// one defect, one key: a control character behind the "#" is not looked for, whatever the
+						// element, attribute, binding and way in (they are in the clause and the replay)
+						vk = "C14:meta:control-character-in-fragment"
+						atomic.AddInt64(&fragCtl, 1)
+					}
+					rep.Violation(vk, x[1], map[string]any{"kind": "meta", "vector": v, "doc": d, "observed": o})
 				}
 				for _, dmsg := range drift {
 					rep.DriftCase(k+":path="+o.Path, dmsg, map[string]any{"raw": d.Raw, "binding": d.Binding})
@@ -1094,10 +1279,28 @@ func TestC14(t *testing.T) {
 		rep.DriftCase("C14:form=mwpost:csp", fmt.Sprintf("%d middleware POST pages without Content-Security-Policy header", cspMissing), nil)
 	}
 	rep.Extra["c14_meta_paths"] = pathCount
+	if fragCtl > 0 {
+		rep.Extra["c14_cases_control_character_in_fragment"] = fragCtl
+	}
 	rep.Extra["c14_reps_per_vector"] = reps
 	if rep.Classes["MustAccept"] == 0 || rep.Classes["MustReject"] == 0 {
 		rep.Break("vacuous: no MustAccept or no MustReject vectors")
 	}
+	// the registered configuration has the deviation PrefixCheckOnly off; the phase before this one runs TLC
+	// with it on (spec/HtmlForms_C14dev.cfg) and must have produced a counterexample to RejectsHostile
+	refuted := false
+	cex, _ := filepath.Glob(filepath.Join(workDir(), "tlc_violation_*.txt"))
+	for _, f := range cex {
+		if b, err := os.ReadFile(f); err == nil && strings.Contains(string(b), "Invariant RejectsHostile is violated") {
+			refuted = true
+		}
+	}
+	if !refuted {
+		rep.Break("TLC did not refute RejectsHostile under the deviation PrefixCheckOnly (no counterexample in the work directory): the location-shape dimension of the model is vacuous")
+	} else {
+		rep.Note("model self-test: with PrefixCheckOnly on (HtmlForms_C14dev.cfg) TLC refutes RejectsHostile")
+	}
+	rep.Note("classification of location shapes on a standard binding: a control character anywhere (CR, LF, CR LF + header text, TAB, DEL, other C0), an unbalanced IPv6 bracket, a non-numeric port, a malformed percent-escape in host / path / fragment and a blank in the host are not URLs under RFC 3986, RFC 9110 or the WHATWG URL standard: MustReject; no host (https:///x), the scheme alone, no \"//\" (https:x), a blank / raw non-ASCII / raw delimiter characters in the path, a malformed escape in the query and a U-label host are admitted by the generic syntax only or by net/url's leniency: DontCare (the survivor oracle still applies); user name, IP literals, port, escapes, query, fragment, A-label host, a 3 kB path, no path and sub-delimiters are well-formed: MustAccept; the same shapes behind a mixed-case scheme are MustReject / DontCare")
 }
 
 func init() {
@@ -1136,7 +1339,6 @@ func init() {
 	})
 }
 
-
 // c14SameXMLMessage reports whether two base64 message fields decode to the same XML document.
 // The statement requires the field to carry the message inertly; it does not fix the serialisation
 // (which characters are written as references), so byte equality of the encodings is not required.
@@ -1159,7 +1361,6 @@ func c14SameXMLMessage(a, b string) bool {
 	nb, okb := norm(b)
 	return oka && okb && na == nb
 }
-
 
 // c14DecodesTo reports whether a base64 message field decodes to exactly the element el
 // (compared in one canonical serialisation: a carriage return written as &#xD; is the same
